@@ -192,7 +192,8 @@ def gen_builtin(rng, b, attr=False):
     if b == "boolean":
         return rng.choice([True, False])
     if b == "decimal":
-        return decimal.Decimal(rng.choice(["0", "1.50", "-0.001", "1E+3", "12345678901234567890.123"]))
+        return decimal.Decimal(rng.choice(["0", "1.50", "-0.001", "1E+3", "12345678901234567890.123",
+                                           "123456789012345678901234567890123456789.000000000012345"]))
     if b == "double":
         return rng.choice([0.0, 1.5, -2.25, 1e20, 1e-7])
     if b == "date":
